@@ -39,7 +39,10 @@ Leak(n, D) ==
 (* ---- arguments explored: every leaf at its lower bound, optionally one sub-proposition id named ---- *)
 LeafLow(n) == [ i \in LeafIds(n) |-> <<LeafLo(n, i), LeafLo(n, i)>> ]
 Handles == {"h1", "h2"}
+\* ... or one leaf given as its whole declared range (a tuple / Bounds value instead of an integer)
+LeafRange(n, lf) == [ i \in LeafIds(n) |-> IF i = lf THEN <<LeafLo(n, i), LeafHi(n, i)>> ELSE <<LeafLo(n, i), LeafLo(n, i)>> ]
 Dicts(n) == {LeafLow(n)} \cup { LeafLow(n) @@ (c :> v) : c \in CompIds(n), v \in DictVals }
+            \cup { LeafRange(n, lf) : lf \in { i \in LeafIds(n) : LeafLo(n, i) < LeafHi(n, i) } }
 \* reload_b64: the handle is re-bound to the object unpacked from the object's own base64 string; by the design this is the same
 \* model (C17), so the action is a plain call: neither the store nor the bindings change
 \* solve: solve() with a solver callable supplied by the caller; builtin: solve() / select() with the library's own (default) solver;
